@@ -61,11 +61,29 @@ MaskV(e) ==
        (IF W("C03") THEN MaskFails(e.ins, e.flags, e.out) ELSE {})
   \cup (IF W("C10") /\ e.out.tag = "sig" THEN C10_MaskMeta(e.ins[1].ps, e.out.ps) ELSE {})
 
+(* signature(functools.partial(f, *nb positionals, **kb)): the event also carries realok, the shapes of the complete call set *)
+(* on which REALLY calling the partial object raised no TypeError -- the property is stated against that, not against a model *)
 PartialV(e) ==
-  LET f == e.ins[1].ps  fl == e.flags  kb == Rng(fl.names)  Calls == CallsFor(<<f>>, Foreign, 0) IN
-  IF kb \cap PoNames(f) # {} THEN {}         \* keyword naming a positional-only parameter: excluded
-  ELSE (IF W("C19") /\ e.out.tag = "sig" THEN Clause(~C19_Exact(f, fl.n, kb, e.out.ps, Calls), "C19_Exact") ELSE {})
-  \cup (IF W("C19") /\ e.out.tag # "sig" THEN Clause(\E c \in Calls : PartialAccepts(f, fl.n, kb, c), "C19_RaisesOnlyIfUncallable") ELSE {})
+  LET f == e.ins[1].ps  fl == e.flags  kb == Rng(fl.names)  Calls == CallsFor(<<f>>, Foreign, 0)
+      real == {[np |-> e.realok[i].np, kw |-> Rng(e.realok[i].kw)] : i \in DOMAIN e.realok}
+      out == e.out
+  IN
+  IF ~W("C19") \/ kb \cap PoNames(f) # {} THEN {}         \* keyword naming a positional-only parameter: excluded
+  ELSE Clause(\E c \in Calls : PartialAccepts(f, fl.n, kb, c) # (c \in real), "C19_OracleVsRealPartial")   \* grounds PartialAccepts
+  \cup (IF out.tag = "sig" THEN
+            Clause(\E c \in Calls : NonColliding(c, out.ps, <<f>>) /\ (Accepts(out.ps, c) # (c \in real)), "C19_Exact")
+       \cup Clause(\E k \in kb \cap {f[i].n : i \in {j \in DOMAIN f : f[j].k = "pok"}} :
+                     \/ ~\E x \in DOMAIN out.ps : out.ps[x].n = k /\ out.ps[x].k = "kwo" /\ out.ps[x].d /\ out.ps[x].dv = fl.vals[k]
+                     \/ HasVar(out.ps), "C19_BoundPokBecomesKwoWithDefault")
+       \cup Clause(\E x, y \in DOMAIN f : x < y /\ f[x].k = "pok" /\ f[y].k = "pok" /\ f[x].n \in kb /\ f[y].n \in AllNames(out.ps)
+                                           /\ ParamOf(out.ps, f[y].n).k # "kwo", "C19_FollowersBecomeKwo")
+       \cup Clause(\E k \in kb \ NamedNames(f) :
+                     \/ ~\E x \in DOMAIN out.ps : out.ps[x].n = k /\ out.ps[x].k = "kwo" /\ out.ps[x].dv = fl.vals[k]
+                     \/ k \notin DOMAIN out.src \/ out.src[k] # <<fl.pobj>>, "C19_AbsorbedKeywordSourcedToPartial")
+       \cup Clause(~(fl.pobj \in DOMAIN out.depth /\ out.depth[fl.pobj] = 0), "C19_PartialDepth0")
+       \cup Clause(\E g \in DOMAIN e.ins[1].depth : ~(g \in DOMAIN out.depth /\ out.depth[g] = e.ins[1].depth[g] + 1), "C19_FuncDepthPlus1")
+       \cup Clause(e.nparams_pos_removed # fl.n /\ e.nparams_pos_removed >= 0, "C19_BoundPositionalsDisappear")
+     ELSE Clause(real # {}, "C19_RaisesOnlyIfUncallable"))
 
 ProvV(e) ==
   IF ~W("C08") \/ e.out.tag # "sig" THEN {}
